@@ -103,7 +103,8 @@ def axioms_for(name, w):
         x = z3.Int("bx!x")
         M = 1 << w
         # identities of bitwise operators with the all-zero pattern (x in [0, 2^w))
-        ax += [AX("and-zero", forall([x], PYAND(x, 0) == 0)), AX("or-zero", forall([x], PYOR(x, 0) == x)), AX("xor-zero", forall([x], PYXOR(x, 0) == x))]
+        ax += [AX("and-zero", forall([x], PYAND(x, 0) == 0)), AX("or-zero", forall([x], PYOR(x, 0) == x)), AX("xor-zero", forall([x], PYXOR(x, 0) == x)),
+               AX("zero-and", forall([x], PYAND(0, x) == 0)), AX("zero-or", forall([x], PYOR(0, x) == x)), AX("zero-xor", forall([x], PYXOR(0, x) == x))]
     if name in ("arith.divui", "arith.remui", "arith.ceildivui", "arith.divsi", "arith.remsi", "arith.floordivsi", "arith.ceildivsi"):
         ax += [AX(f"division-axiom{i}", a) for i, a in enumerate(division_axioms())]
     return ax
@@ -244,6 +245,129 @@ class Commutes(Spec):
         return [C("Commutative-trait-is-truthful", sem(self.x, self.y, w)[0] == sem(self.y, self.x, w)[0])]
 
 
+
+# ------------------------------------------------------------------ SignlessIntegerBinaryOperation.fold, per concrete class
+def defining_class(cls, name):
+    for c in cls.__mro__:
+        if name in c.__dict__:
+            return c.__name__
+    raise KeyError(name)
+
+
+class Fold(Spec):
+    """
+    SignlessIntegerBinaryOperation.fold executed for the concrete class K (its own py_operation / is_right_unit bodies are
+    inlined, its Commutative trait is read from the live class): whatever fold returns denotes the MLIR result of the op,
+    for ALL values of the non-constant operands.
+      returns (IntegerAttr c,)  ->  both operands constant and bits(c) == K(lhs, rhs)
+      returns (self.lhs,)       ->  K(x, rhs) == x for every x      (rhs constant)
+      returns (self.rhs,)       ->  K(lhs, y) == y for every y      (lhs constant)
+    """
+
+    prop, file, qualname = PROP, AR, "SignlessIntegerBinaryOperation.fold"
+
+    def __init__(self, cls):
+        self.cls = cls
+        self.inline = {"self.py_operation": Inline(AR, f"{defining_class(cls, 'py_operation')}.py_operation"),
+                       "self.is_right_unit": Inline(AR, f"{defining_class(cls, 'is_right_unit')}.is_right_unit")}
+        for h in self.inline.values():
+            h.static = True  # @staticmethod: the receiver is not passed
+
+    @property
+    def globals(self):
+        spec = self
+
+        def getattr_(ex, st, base, attr):
+            if base.cls == "IntegerAttr" and attr == "value":
+                return VRef(base.z, "IntAttr")
+            if base.cls == "IntAttr" and attr == "data":
+                return VInt(spec.val[base.z.get_id()])
+            if base.cls == "IntegerAttr" and attr == "type":
+                return VRef(z3.IntVal(77), "IntegerType")
+            if base.cls == "Op" and attr in ("lhs", "rhs"):
+                return VRef(spec.operand[attr], "SSAValue")
+            return None
+
+        def eq(ex, st, x, y):
+            from pyvc.values import lift_bool
+
+            if isinstance(x, VRef) and isinstance(y, VRef) and x.cls == y.cls == "IntegerAttr":
+                return lift_bool(spec.val[x.z.get_id()] == spec.val[y.z.get_id()])
+            if isinstance(x, VRef) and isinstance(y, VRef) and x.cls == y.cls == "IntegerType":
+                return True  # both constants are operands of a verified SameOperandsAndResultType op
+            return None
+
+        return {"__getattr__": getattr_, "__eq__": eq, "Commutative": VGlobal("Commutative"), "IntegerAttr": VGlobal("IntegerAttr"),
+                "ConstantLike": VGlobal("ConstantLike")}
+
+    @property
+    def calls(self):
+        spec = self
+        from pyvc.engine import Res
+
+        def b_integer_attr(ex, st, args, kw):
+            w = spec.w
+            r = st.fresh_int("attr")
+            st.assume(z3.And(r != spec.cattr["lhs"], r != spec.cattr["rhs"], r > 100))
+            spec.val[r.get_id()] = sgn(z_int(args[0]), w)
+            st.ghost["made"] = r
+            st.ghost["made_val"] = sgn(z_int(args[0]), w)
+            return [Res("val", VRef(r, "IntegerAttr"), st)]
+
+        def b_get_constant(ex, st, args, kw):
+            which = "lhs" if args[0].z.eq(spec.operand["lhs"]) else "rhs"
+            return [Res("val", VRef(spec.cattr[which], "IntegerAttr") if spec.const[which] else None, st)]
+
+        def b_isa(ex, st, args, kw):
+            return [Res("val", args[0] is not None, st)]
+
+        def b_has_trait(ex, st, args, kw):
+            from xdsl.traits import Commutative
+
+            return [Res("val", bool(spec.cls.has_trait(Commutative)), st)]
+
+        return {"IntegerAttr": Builtin(b_integer_attr, "IntegerAttr(v, t, truncate_bits=True) stores the signed representative of v mod 2^w (C08)"),
+                "ConstantLike.get_constant_value": Builtin(b_get_constant, "the constant attribute of an operand defined by a ConstantLike op, else None"),
+                "isa": Builtin(b_isa, "isa(x, IntegerAttr): constants of integer-typed operands are IntegerAttr"),
+                "self.has_trait": Builtin(b_has_trait, "trait read from the live class")}
+
+    def setup(self, st, inst):
+        self.w = w = inst["w"]
+        self.const = {"lhs": inst["lc"], "rhs": inst["rc"]}
+        L = st.declare_input("lhs_value", z3.Int("lhs_value"))
+        R = st.declare_input("rhs_value", z3.Int("rhs_value"))
+        self.operand = {"lhs": z3.IntVal(11), "rhs": z3.IntVal(12)}
+        self.cattr = {"lhs": z3.IntVal(21), "rhs": z3.IntVal(22)}
+        self.val = {self.cattr["lhs"].get_id(): L, self.cattr["rhs"].get_id(): R}
+        st.ghost["made"] = z3.IntVal(0)
+        st.ghost["made_val"] = z3.IntVal(0)
+        return {"self": VRef(z3.IntVal(1), "Op"), "_L": L, "_R": R}
+
+    def pre(self, st, a):
+        w = self.w
+        # constants are stored normalised (signed representative); a non-constant operand is any value of the type
+        return axioms_for(self.cls.name, w) + [A("lhs-value-of-the-type", in_signed(a["_L"], w)), A("rhs-value-of-the-type", in_signed(a["_R"], w))]
+
+    def post(self, old, st, a, res):
+        w = self.w
+        X, Y = bits(a["_L"], w), bits(a["_R"], w)
+        val, poison = mlir_semantics(self.cls.name)(X, Y, w)
+        if res is None:
+            return [A("nothing-folded", z3.BoolVal(True))]
+        r = res.items[0]
+        if r.cls == "IntegerAttr":
+            return [C("both-operands-constant", z3.BoolVal(self.const["lhs"] and self.const["rhs"])),
+                    C("folded-constant-is-the-bit-exact-result", z3.Implies(z3.Not(poison), z3.And(r.z == st.ghost["made"], bits(st.ghost["made_val"], w) == val)))]
+        which = "lhs" if z3.simplify(r.z == self.operand["lhs"]).eq(z3.BoolVal(True)) else "rhs"
+        other = "rhs" if which == "lhs" else "lhs"
+        return [C(f"folding-to-the-{which}-operand-needs-the-{other}-operand-constant", z3.BoolVal(self.const[other])),
+                C(f"folding-to-the-{which}-operand-preserves-the-value-for-every-value-of-that-operand",
+                  z3.Implies(z3.Not(poison), val == (X if which == "lhs" else Y)))]
+
+    def replay(self, inst, m):
+        return N14.check_fold_method(self.cls.name, inst["w"], inst["lc"], inst["rc"], m["lhs_value"], m["rhs_value"])
+
+
 # ------------------------------------------------------------------ float folding
 class FoldConst(Spec):
     prop, file, qualname = PROP, CP, "_fold_const_operation"
@@ -376,6 +500,10 @@ def make_specs(tier):
             add(RightElement(cls, "zero"), W)
         if cls.has_trait(Commutative) and "py_operation" in cls.__dict__:
             add(Commutes(cls), W)
+        fw = [w for w in ws if w in (1, 8, 64)] if tier == "quick" else ws
+        f = Fold(cls)
+        f.qualname_note = cls.__name__
+        add(f, [{"cls": cls.__name__, "w": w, "lc": lc, "rc": rc} for w in fw for lc in (False, True) for rc in (False, True)])
     add(FoldConst(), [{"op": o} for o in ("AddfOp", "SubfOp", "MulfOp", "DivfOp", "MaximumfOp")])
     add(CmpiEqualOperands(), [{"w": w, "pred": p, "same": True} for w in (1, 8, 64) for p in range(10)] + [{"w": 8, "pred": 2, "same": False}])
     return specs
